@@ -51,7 +51,20 @@ pub struct Renderer {
     pub in_macro_body: bool,
 }
 
-const HOSTILE_COMMENTS: &[&str] = &["c", "x ; y", "say \"hi\"", "it's", "a // b", "*/ not really", "@0 @1", "1, 2, 3", ".endif", "nop", "r16: .db 1", "gr\u{f6}\u{df}e \u{b5}s", "2 * n + 1", "**", ".endm .macro"];
+const HOSTILE_BASE: &[&str] = &["c", "x ; y", "say \"hi\"", "it's", "a // b", "*/ not really", "@0 @1", "1, 2, 3", ".endif", "nop", "r16: .db 1", "gr\u{f6}\u{df}e \u{b5}s", "2 * n + 1", "**", ".endm .macro"];
+
+/// Comment texts that look like code to a careless scanner; the last ones are banners: long runs
+/// of characters that are operators or parentheses outside a comment.
+fn hostile_comments() -> &'static Vec<String> {
+    static H: std::sync::OnceLock<Vec<String>> = std::sync::OnceLock::new();
+    H.get_or_init(|| {
+        let mut v: Vec<String> = HOSTILE_BASE.iter().map(|s| s.to_string()).collect();
+        for (unit, n) in [("-", 300usize), ("*", 300), ("(", 300), ("=+", 150), ("!~", 150), ("-", 127), ("-", 130), ("<<", 90), ("(1+", 140)] {
+            v.push(unit.repeat(n));
+        }
+        v
+    })
+}
 
 impl Renderer {
     pub fn new(style: Style) -> Self {
@@ -326,15 +339,15 @@ impl Renderer {
                 0 => {}
                 1 => self.out.push_str("  \t"),
                 2 => {
-                    let i = (self.pick(D_BLANK) % HOSTILE_COMMENTS.len() as u64) as usize;
-                    self.out.push_str(&format!("; {}", HOSTILE_COMMENTS[i]));
+                    let i = (self.pick(D_BLANK) % hostile_comments().len() as u64) as usize;
+                    self.out.push_str(&format!("; {}", hostile_comments()[i]));
                 }
                 _ => {
-                    let i = (self.pick(D_BLANK) % HOSTILE_COMMENTS.len() as u64) as usize;
-                    if i % 3 == 0 && !HOSTILE_COMMENTS[i].contains("*/") {
-                        self.out.push_str(&format!("/* {} */", HOSTILE_COMMENTS[i]));
+                    let i = (self.pick(D_BLANK) % hostile_comments().len() as u64) as usize;
+                    if i % 3 == 0 && !hostile_comments()[i].contains("*/") {
+                        self.out.push_str(&format!("/* {} */", hostile_comments()[i]));
                     } else {
-                        self.out.push_str(&format!("  // {}", HOSTILE_COMMENTS[i]));
+                        self.out.push_str(&format!("  // {}", hostile_comments()[i]));
                     }
                 }
             }
@@ -347,8 +360,8 @@ impl Renderer {
             return;
         }
         let k = self.pick(D_COMMENT);
-        let i = ((k >> 8) % HOSTILE_COMMENTS.len() as u64) as usize;
-        let text = HOSTILE_COMMENTS[i];
+        let i = ((k >> 8) % hostile_comments().len() as u64) as usize;
+        let text = hostile_comments()[i].as_str();
         let sp = if self.style.dims & D_SPACE != 0 { self.ws0() } else { " ".to_string() };
         match k % 5 {
             0 | 1 => {}
